@@ -94,16 +94,21 @@ static std::ostringstream g_trace_sink;
 struct TracerRec { HTracer* h; STracer* s; };
 static std::vector<TracerRec> g_tracers;
 
+// The reporters keep a plain (unsynchronised) tally, as a reporter written for a single-threaded test framework would:
+// the library calls them with its global lock held, so ThreadSanitizer sees a report delivered without the lock
+static unsigned long g_reports_seen = 0;
+static unsigned long g_oks_seen = 0;
 struct Rep
 {
   void operator()(trompeloeil::severity s, char const* file, unsigned long line, std::string const& msg) const
   {
+    ++g_reports_seen;
     H::emit("R A %c %s %lu %s", s == trompeloeil::severity::fatal ? 'F' : 'N',
             H::esc(file ? file : "<null>").c_str(), line, H::esc(msg).c_str());
     if (s == trompeloeil::severity::fatal) throw Fatal{};
   }
 };
-struct OkRep { void operator()(char const* msg) const { H::emit("K A %s", H::esc(msg ? msg : "<null>").c_str()); } };
+struct OkRep { void operator()(char const* msg) const { ++g_oks_seen; H::emit("K A %s", H::esc(msg ? msg : "<null>").c_str()); } };
 
 constexpr int MAXID = 1024;
 struct Obj { char kind = 0; MockM* m = nullptr; MockN* n = nullptr; WatchM* wm = nullptr; WatchP* wp = nullptr; };
